@@ -26,7 +26,7 @@ def progress_scenarios(ctx, n, start):
     out = []
     for k in range(n):
         run = start + k
-        fam = k % 4
+        fam = k % 5
         nev = rng.randint(2, 12)
         if fam == 0:      # capacity 1..2: reader blocks on the pool for almost every event
             sc = core.base(run, cap=rng.choice([1, 1, 2]), pool=rng.choice(["std", "low_memory"]), workers=rng.choice([1, 2]),
@@ -40,6 +40,10 @@ def progress_scenarios(ctx, n, start):
         elif fam == 2:    # partially filled batches: only the flush timer can hand them over
             sc = core.base(run, cap=16, workers=rng.choice([1, 2, 3]), batch=rng.choice([4, 7, 16]), flush_ms=rng.choice([5, 20, 50]),
                            lines=core.random_lines(rng, nev, rng.choice([1, 2]), ["a", "b"], ["P", "P", "D"]))
+        elif fam == 4:    # split: the children fill a batch exactly, the parent opens the next one ALONE (it is not an iterable
+                          # event) -- only the flush timer can hand that batch over
+            sc = core.base(run, cap=16, workers=rng.choice([1, 2]), batch=rng.choice([2, 2, 1, 4]), flush_ms=rng.choice([5, 20]),
+                           lines=core.random_lines(rng, rng.choice([1, 1, 2, 3, 5]), 1, ["a"], rng.choice([["S"], ["S", "S", "D"], ["S", "P"]])))
         else:             # capacity smaller than the batch size: progress depends on the flush timer AND the pool
             cap = rng.choice([1, 2, 3])
             sc = core.base(run, cap=cap, pool=rng.choice(["std", "low_memory"]), workers=rng.choice([1, 2]), batch=cap + rng.choice([1, 3]),
